@@ -8,10 +8,20 @@ from impl import ImplRunner, state_wire, result_wire, mat_wire
 import scen
 
 
-def explore(sd, scenario, modes=(0, 1, 0), max_states=300, rng=None, paths=3, depth=6, sample=120):
+def explore(sd, scenario, modes=(0, 1, 0), max_states=300, rng=None, paths=3, depth=6, sample=120, objects=True):
     runner = ImplRunner(scenario, sd, list(modes))
     env, shim, lay = runner.env, runner.shim, runner.lay
     flat = run_driver([[1, scen.sd_wire(sd)]])[0][0]
+    # besides the scenario's own actions (by index): every exploit and subnet scan once more as an Action OBJECT
+    # that requires ROOT on the pivot / on the scanning host (objects need not be ones the scenario lists)
+    acts = [(ai, wa) for ai, wa in enumerate(flat)]
+    if objects:
+        from impl import make_action
+        for wa in flat:
+            if wa[0] in (2, 4):
+                w2 = list(wa)
+                w2[4] = 2
+                acts.append((make_action(w2, runner.names, None, None), w2))
     start = env.current_state
     seen = {start.tensor.tobytes(): start}
     queue = [start]
@@ -21,7 +31,7 @@ def explore(sd, scenario, modes=(0, 1, 0), max_states=300, rng=None, paths=3, de
     while queue:
         st = queue.pop()
         stw = state_wire(st.tensor, lay)
-        for ai, wa in enumerate(flat):
+        for ai, wa in acts:
             ks = [0] if wa[3] >= TWO53 else ([0, TWO53 - 1] if wa[3] > 0 else [0])
             for k in ks:
                 shim.k, shim.calls = k, 0
@@ -35,7 +45,8 @@ def explore(sd, scenario, modes=(0, 1, 0), max_states=300, rng=None, paths=3, de
                              shim.calls if shim.calls <= 1 else -7, fx(rew), int(bool(done))])
                 obs.append(mat_wire(o.numpy()))
                 key = ns.tensor.tobytes()
-                trans.setdefault(st.tensor.tobytes(), []).append((ai, k, key))
+                if isinstance(ai, int):
+                    trans.setdefault(st.tensor.tobytes(), []).append((ai, k, key))
                 if key not in seen:
                     if len(seen) >= max_states:
                         complete = False
